@@ -91,3 +91,145 @@ def texts_for_ids(cases, ids):
                 if len(out) == len(want):
                     break
     return out
+
+
+# --------------------------------------------------------------------------------------------------
+# thorough tier: vm_compute cross-check (DESIGN 3.3).  A sample of the run's records is written as a
+# Coq file with the OBSERVED Go results embedded (tokens with positions, parse outcome with error
+# position, parsed document as a term, writer text) and the model is evaluated inside Coq by
+# vm_compute: this sample does not depend on extraction nor on the OCaml driver.
+# --------------------------------------------------------------------------------------------------
+KINDS = ["KError", "KEOF", "KSpace", "KIdent", "KNumber", "KRange", "KMux", "KString", "KKeyword", "KPunct"]
+
+
+def _nl(cps):
+    return "[" + ";".join(str(c) for c in cps) + "]"
+
+
+def _read_records(cases, want, max_len, streams_cap=12):
+    """Pick up to `want` records (text of at most max_len code points), a few per stream."""
+    picked, per_stream, cur = [], {}, None
+    with open(cases, encoding="utf-8", errors="replace") as f:
+        for line in f:
+            line = line.rstrip("\n")
+            tag, _, rest = line.partition(" ")
+            if tag == "CASE":
+                p = rest.split(" ")
+                cur = {"id": p[0], "stream": p[1], "hex": p[2] == "1", "toks": [], "prs": [], "fmt": [], "digits": [],
+                       "domain": False, "text": None, "parse": None, "coqast": None, "wtext": None}
+            elif cur is None:
+                continue
+            elif tag == "TEXT":
+                t = rest.split(" ")
+                cur["text"] = [int(x) for x in t[1:]]
+            elif tag == "DOMAIN":
+                cur["domain"] = rest.strip() == "1"
+            elif tag == "DIGITS":
+                cur["digits"] = [int(x) for x in rest.split(" ")[1:]]
+            elif tag == "TOK":
+                t = rest.split(" ")
+                cur["toks"].append((int(t[0]), int(t[1]), int(t[2]), [int(x) for x in t[4:]]))
+            elif tag == "PRS":
+                t = rest.split(" ")
+                n = int(t[0])
+                cps = [int(x) for x in t[1:1 + n]]
+                cur["prs"].append((cps, int(t[2 + n]) if t[1 + n] == "ok" else None))
+            elif tag == "FMT":
+                t = rest.split(" ")
+                cur["fmt"].append((int(t[0]), [int(x) for x in t[2:]]))
+            elif tag == "PARSE":
+                cur["parse"] = rest.split(" ")
+            elif tag == "COQAST":
+                cur["coqast"] = rest
+            elif tag == "WTEXT":
+                cur["wtext"] = [int(x) for x in rest.split(" ")[1:]]
+            elif tag == "END":
+                r, cur = cur, None
+                if not r["domain"] or r["text"] is None or len(r["text"]) > max_len or r["parse"] is None or r["parse"][0] == "panic":
+                    continue
+                k = per_stream.get(r["stream"], 0)
+                if k >= streams_cap:
+                    continue
+                # prefer variety: every 3rd candidate of a stream
+                per_stream[r["stream"]] = k + 1
+                picked.append(r)
+                if len(picked) >= want:
+                    break
+    return picked
+
+
+def _coq_case(r, tamper=False):
+    cid = "T" + r["id"] if tamper else r["id"]
+    toks = list(r["toks"])
+    parse = list(r["parse"])
+    if tamper:          # shift one observed position: the cross-check must notice
+        if parse[0] == "syn":
+            parse[2] = str(int(parse[2]) + 1)
+        elif toks:
+            k, l, c, v = toks[len(toks) // 2]
+            toks[len(toks) // 2] = (k, l, c + 1, v)
+    out = []
+    out.append("Definition text_%s : list N := %s." % (cid, _nl(r["text"])))
+    out.append("Definition ud_%s : N -> bool := fun c => existsb (N.eqb c) %s." % (cid, _nl(r["digits"])))
+    out.append("Definition prs_%s : str -> option N := lookup_prs [%s]." % (
+        cid, ";".join("(%s, %s)" % (_nl(k), ("Some %d" % v) if v is not None else "None") for k, v in r["prs"])))
+    out.append("Definition fmt_%s : N -> str := lookup_fmt [%s]." % (cid, ";".join("(%d, %s)" % (b, _nl(t)) for b, t in r["fmt"])))
+    exp_toks = "[" + ";".join("(%s, %d, %d, %s)" % (KINDS[k], l, c, _nl([]) if k == 0 else _nl(v)) for k, l, c, v in toks) + "]"
+    out.append("Goal option_map (map tokview) (lex ud_%s text_%s) = Some %s." % (cid, cid, exp_toks))
+    out.append('Proof. first [ vm_compute; reflexivity | idtac "VMMISMATCH %s tokens" ]. Abort.' % cid)
+    hexs = "true" if r["hex"] else "false"
+    if parse[0] == "ok" and r["coqast"] and not tamper:
+        out.append("Goal parse ud_%s prs_%s %s text_%s = OOk (%s)." % (cid, cid, hexs, cid, r["coqast"]))
+        out.append('Proof. first [ vm_compute; reflexivity | idtac "VMMISMATCH %s document" ]. Abort.' % cid)
+        if r["wtext"] is not None:
+            out.append("Goal write fmt_%s %s (%s) = %s." % (cid, hexs, r["coqast"], _nl(r["wtext"])))
+            out.append('Proof. first [ vm_compute; reflexivity | idtac "VMMISMATCH %s writer" ]. Abort.' % cid)
+    else:
+        exp = {"ok": "(0, 0, 0)", "other": "(2, 0, 0)"}.get(parse[0])
+        if parse[0] == "syn":
+            exp = "(1, %s, %s)" % (parse[1], parse[2])
+        out.append("Goal oview (parse ud_%s prs_%s %s text_%s) = %s." % (cid, cid, hexs, cid, exp))
+        out.append('Proof. first [ vm_compute; reflexivity | idtac "VMMISMATCH %s outcome" ]. Abort.' % cid)
+    out.append('Goal True. idtac "VMCASE %s". Abort.' % cid)
+    return "\n".join(out)
+
+
+VM_HEADER = """From Coq Require Import NArith ZArith List Bool.
+From Acme.C08 Require Import DbcAst Chars DbcLex DbcParse DbcWrite.
+Import ListNotations.
+Local Open Scope N_scope.
+Definition tokview (t : rtoken) : tkind * N * N * list N :=
+  (rt_kind t, rt_line t, rt_col t, match rt_kind t with KError => [] | _ => rt_value t end).
+Definition oview (o : outcome) : N * N * N :=
+  match o with OOk _ => (0, 0, 0) | OSyntax l c => (1, l, c) | OOther => (2, 0, 0) | OOutOfFuel => (3, 0, 0) end.
+Fixpoint lookup_prs (tbl : list (str * option N)) (v : str) : option N :=
+  match tbl with [] => None | (k, r) :: t => if str_eqb k v then r else lookup_prs t v end.
+Fixpoint lookup_fmt (tbl : list (N * str)) (b : N) : str :=
+  match tbl with [] => [] | (k, r) :: t => if N.eqb k b then r else lookup_fmt t b end.
+"""
+
+
+def vm_crosscheck(ctx, cases, want=60, max_len=1500):
+    """Returns dict(cases, goals_ok, mismatches[list], negative_detected, log_tail)."""
+    recs = _read_records(cases, want, max_len)
+    if not recs:
+        return {"cases": 0, "mismatches": ["no record sampled"], "negative_detected": False, "log_tail": ""}
+    body = [VM_HEADER] + [_coq_case(r) for r in recs]
+    # negative test: the same machinery must report a tampered observation
+    body.append(_coq_case(recs[0], tamper=True))
+    d = os.path.join(ctx.scratch, "vm")
+    os.makedirs(d, exist_ok=True)
+    path = os.path.join(d, "cases.v")
+    open(path, "w").write("\n".join(body) + "\n")
+    with vlib.Lock("coq"):
+        rc, log = vlib.sh(["coqc", "-R", vlib.COQ, "Acme", "-w", "-notation-overridden", path], cwd=d, timeout=2400)
+    done = re.findall(r"VMCASE (\S+)", log)
+    mism = re.findall(r"VMMISMATCH (\S+) (\S+)", log)
+    neg = [m for m in mism if m[0].startswith("T")]
+    real = ["%s:%s" % m for m in mism if not m[0].startswith("T")]
+    if rc != 0:
+        real.append("coqc failed: " + log[-400:])
+    goals = sum(b.count("\nGoal ") + b.startswith("Goal ") for b in body[1:-1]) - len(recs)
+    return {"cases": len([c for c in done if not c.startswith("T")]), "goals": goals,
+            "with_document_and_writer": sum(1 for r in recs if r["parse"][0] == "ok" and r["coqast"]), "mismatches": real,
+            "negative_detected": bool(neg), "streams": sorted(set(r["stream"] for r in recs)), "log_tail": log[-600:]}
